@@ -4,7 +4,7 @@
 #![allow(unused_imports, dead_code)]
 use super::*;
 use super::header::Header;
-use super::rdata::{RData, NULL, OPT};
+use super::rdata::{RData, NULL, OPT, OPTCode};
 use std::convert::TryFrom;
 
 // ---------------------------------------------------------------- reference: RFC 1035 4.1.1 header layout
@@ -297,6 +297,30 @@ fn opt_ttl_parse_side() {
     h.response_code = RCODE::from(lo);
     let rc = OPT::extract_rcode_from_ttl(ttl, &h);
     assert!(rc == RCODE::from(((e as u16) << 4) | lo));
+}
+
+// the pseudo-record handed to the writers (Header::opt_rr): present iff EDNS data is set, root owner, class IN slot (the
+// writer puts the payload size there), TTL word as laid out above, RDATA = the packet's OPT value.
+// BOUNDED in the option list only (empty: the list is copied by the derived Clone); every other field symbolic.
+#[kani::proof]
+#[kani::unwind(2)]
+fn opt_rr_shape() {
+    let mut h = Header::new_query(kani::any());
+    h.response_code = any_named_rcode();
+    assert!(h.opt_rr().is_none());
+    let version: u8 = kani::any();
+    let size: u16 = kani::any();
+    h.opt = Some(OPT { opt_codes: Vec::new(), udp_packet_size: size, version });
+    let rr = h.opt_rr().unwrap();
+    assert!(rr.name.get_labels().is_empty());
+    assert!(rr.class == CLASS::IN);
+    assert!(!rr.cache_flush);
+    let code = h.response_code as u32;
+    assert!(rr.ttl == ((code >> 4) << 24) | ((version as u32) << 16));
+    match &rr.rdata {
+        RData::OPT(o) => { assert!(o.udp_packet_size == size && o.version == version && o.opt_codes.is_empty()); }
+        _ => panic!("not an OPT record"),
+    }
 }
 
 // ================================================================ C17: textual name API  (BOUNDED harnesses, bounds stated per harness)
